@@ -140,6 +140,7 @@ def run_check(prop, tier, jobs, level_text, assumptions, require_reach=(), seed=
         if ps.get('limit') and not spec.get('allow_truncated'):
             inconclusive.append('%s: %d truncated path(s)' % (name, ps['limit']))
         for h in r.get('harness_errors') or []:
+            h.pop('subspec', None)
             herrs.append(dict(job=name, **h))
         for mm in r.get('mismatches') or []:
             herrs.append(dict(job=name, why='symbolic record differs from the pristine implementation', detail=mm))
@@ -147,12 +148,13 @@ def run_check(prop, tier, jobs, level_text, assumptions, require_reach=(), seed=
             if spec.get('twin_job') or v.get('key', '').startswith(('twin-assert-false', 'twin_false')):
                 twin_seen[0] += 1        # the reachability twin came back violated, as it must
                 continue
-            sig = sig_of(prop, spec, v)
+            vspec = v.pop('subspec', None) or spec      # support batches: the finding replays under its own lines
+            sig = sig_of(prop, vspec, v)
             kf = match_known(known, prop, sig)
             if kf is not None:
                 known_hits.setdefault(kf['id'], dict(f=kf, n=0, example=sig))['n'] += 1
                 continue
-            violations.append((sig, spec, v))
+            violations.append((sig, vspec, v))
     for ev in require_reach:
         if not reach.get(ev):
             inconclusive.append('reachability witness never seen: %s' % ev)
